@@ -88,6 +88,15 @@ def rule_child_ctx(ctx):
         a = T.args_of(c)
         cl = [x for x in a if x[0] == "closure"]
         if not cl:
+            # the watcher may be a private async fn called with the values the block used to capture
+            for x in a:
+                if x[0] == "call" and x[1].startswith("zksync_concurrency::"):
+                    u = ctx.F.by_qname.get(x[1], [None])[0]
+                    if u is not None and u.is_async:
+                        gb = ctx.F.body_of(u)
+                        cl = [("closure", gb.qname, tuple(x[2]))]
+                        break
+        if not cl:
             ctx.ob(R, "watcher body", False, "argument of tokio::spawn is not an async block of child_with_clock", f.loc())
             continue
         g = ctx.F.by_qname.get(cl[0][1], [None])[0]
